@@ -12,6 +12,7 @@ from ..core import Ctx, StopRun, close, fhex, ts, DAY, CLOSE_S, iso
 from ..quotebook import QuoteBook
 
 NAME = "signal"
+ISOLATE = "fork"
 PROPS = ("C16",)
 CHUNK = {"quick": 10, "thorough": 10}
 RULE = ("(signal kind, lookback N, number of observations capped at N+2, window state empty / warming up / exactly "
